@@ -66,7 +66,7 @@ class PersistentParam(Parameter):
     given = False
 
 
-class PersistentLimit(Limit, Parameter):
+class PersistentLimit(Limit, PersistentParam):
     pass
 
 
